@@ -64,7 +64,51 @@ static void body(int k, unsigned spin) {
     else A.depth[idx]--;
 }
 
-int main() {
+// mode "mandatory": max_allowed_parallelism = 1.  A task enqueued into an arena of P >= 2 slots gets the one mandatory worker.  While it runs,
+// spawned (not enqueued) tasks sit in the arena and the calling thread waits, plainly or inside this_task_arena::isolate (so it idles in the
+// scheduler and reports the arena out of enqueued work).  When all enqueued work is long finished the limit must hold again: only the caller
+// executes a parallel_for in that arena.   input: seed P isolate(0/1) nspawn   output: FOREIGN <iterations run by other threads in the
+// last two of three quiet measurements> LOST <tasks not run>
+static int do_mandatory() {
+    std::vector<i128> c; Out o; Watchdog wd(60.0);
+    while (read_case(c)) {
+        unsigned seed = (unsigned)c[0]; int P = (int)c[1]; bool iso = c[2] != 0; int nspawn = (int)c[3];
+        std::mt19937 rng(seed);
+        wd.arm(&o);
+        long lost = 0; int worst_late = 0;
+        {
+            tbb::global_control gc(tbb::global_control::max_allowed_parallelism, 1);
+            tbb::task_arena a(P);
+            auto foreign_iterations = [&] {
+                std::atomic<int> foreign{0}; const std::thread::id me = std::this_thread::get_id();
+                a.execute([&] { tbb::parallel_for(0, 200, [&](int) { if (std::this_thread::get_id() != me) ++foreign;
+                    auto t0 = std::chrono::steady_clock::now(); while (std::chrono::steady_clock::now() - t0 < std::chrono::microseconds(150)) {} }); });
+                return foreign.load(); };
+            std::atomic<bool> e_started{false}, f_done{false}; std::atomic<int> x_done{0};
+            int hold_ms = 100 + (int)(rng() % 300);
+            a.execute([&] {
+                tbb::task_group tg, tg2;
+                for (int i = 0; i < nspawn; ++i) tg.run([&] { ++x_done; });
+                a.enqueue([&] { tg2.run([&] { f_done = true; }); e_started = true; std::this_thread::sleep_for(std::chrono::milliseconds(hold_ms)); });
+                while (!e_started) std::this_thread::yield();
+                if (iso) tbb::this_task_arena::isolate([&] { tg2.wait(); }); else tg2.wait();
+                tg.wait();
+            });
+            if (x_done != nspawn || !f_done) lost = 1;
+            for (int m = 0; m < 3; ++m) {
+                std::this_thread::sleep_for(std::chrono::milliseconds(250));      // all enqueued work is finished; the mandatory worker has left
+                int f = foreign_iterations();
+                if (m > 0 && f > worst_late) worst_late = f;
+            }
+        }
+        wd.disarm();
+        o.word("FOREIGN"); o.put(worst_late); o.word("LOST"); o.put(lost); o.flush();
+    }
+    return 0;
+}
+
+int main(int argc, char** argv) {
+    if (argc > 1 && std::string(argv[1]) == "mandatory") return do_mandatory();
     std::vector<i128> c; Out o; Watchdog wd(120.0);
     while (read_case(c)) {
         unsigned seed = (unsigned)c[0]; int K = (int)c[1], T = (int)c[2], L = (int)c[3], rounds = (int)c[4];
